@@ -124,6 +124,13 @@ class Run:
             print("note: " + n)
         for k in stale:
             print("note: known finding no longer reported (repaired or moved): %s" % k)
+        if os.environ.get("GW_MUTANT_RUN"):
+            # sub-run of the mutation battery: report findings on stdout only, write nothing
+            for f in new:
+                print("MUTANT-FINDING " + f.key())
+            for e in self.errors:
+                print("MUTANT-ERROR " + e[:300])
+            return 1 if (new or self.errors) else 0
         replay_dir = os.path.join(VERIF, "evidence", "replay")
         os.makedirs(replay_dir, exist_ok=True)
         rc = 0
